@@ -383,6 +383,24 @@ def run(ctx):
         "push": gen_push(r, 90 * mult, gid),
         "resp": gen_resp_seqs(r, 110 * mult, gid, known) + [(400000, [b]) for b in random_bytes(r, 30 * mult)],
     }
+    if getattr(ctx, "replay_in", None):
+        try:
+            import json
+            rc_ = json.load(open(ctx.replay_in)).get("case", "")
+            t_ = rc_.split()
+            one = {"decode": [], "subres": [], "reqrecv": [], "push": [], "resp": []}
+            if t_ and t_[0] in ("decode", "subres"):
+                one[t_[0]] = [bytes.fromhex(t_[1]) if len(t_) > 1 else b""]
+            elif t_ and t_[0] == "reqrecv":
+                one["reqrecv"] = [(int(t_[1]), t_[2], int(t_[3]), bytes.fromhex(t_[4]) if len(t_) > 4 else b"")]
+            elif t_ and t_[0] == "push":
+                one["push"] = [(int(t_[1]), bytes.fromhex(t_[2]) if len(t_) > 2 else b"")]
+            elif t_ and t_[0] == "resp":
+                one["resp"] = [(int(t_[1]), [bytes.fromhex(x) for x in t_[2:]])]
+            if any(one.values()):
+                cases = one
+        except Exception:
+            pass
     total = sum(len(v) for v in cases.values())
     results = {}
     for (profile, dbg) in (("dev", True), ("nodebug", False)):
@@ -525,7 +543,7 @@ def run(ctx):
                 "model and implementation must agree on the exact outcome (variant, error class, slice offsets, responder output)",
         "distribution": {"cases_per_category": {k: len(v) for k, v in cases.items()}, "outcomes_dev_profile": classes,
                          "profiles": ["dev", "nodebug (debug-assertions=off, overflow-checks=on)"]},
-        "samples": [{"decode": cases["decode"][i].hex()[:80], "impl": results["dev"][1 + i][:80]} for i in range(3)],
+        "samples": [{"decode": cases["decode"][i].hex()[:80], "impl": results["dev"][1 + i][:80]} for i in range(min(3, len(cases["decode"])))],
     })
     ctx.assumptions += ["postcard / serde / heapless are modelled from their documented format (Wire.v), not verified; a panic inside those crates would be found only by the fuzz side",
                         "responder side: the local store is well-formed (wf_store); the peer's bytes are arbitrary"]
